@@ -24,6 +24,7 @@
 #include "decode.h"             /* decode() */
 #include "main.h"               /* bs100k */
 #include "process.h"            /* struct process */
+#include "verif.h"              /* verification hooks (off by default) */
 
 #include <string.h>             /* memset() */
 
@@ -370,6 +371,7 @@ advance(struct detached_bitstream bs)
 
     Trace(("Advanced over miss-recognized bit pattern at {%u}",
            nbsx2(rb->base)));
+    VERIF_REACH("x.advance.drop_retr");
 
     decoder_free(&rb->ds);
     free(rb);
@@ -378,6 +380,7 @@ advance(struct detached_bitstream bs)
 
   /* Release scan jobs. */
   while (!empty(scan_q) && peek(scan_q)->offset < head_offs) {
+    VERIF_REACH("x.advance.drop_scan");
     free(dequeue(scan_q));
   }
 }
@@ -412,6 +415,7 @@ do_parse(void)
          32ul + 32ul * parser_bs.offset - parser_bs.live));
 
   if (rv == MORE) {
+    VERIF_REACH("x.parse.more");
     parse_token = true;
     work_units++;
     check_invariants();
@@ -455,6 +459,7 @@ do_parse(void)
 
       Trace(("Parser discovered a bit pattern beyond EOF at {%u}",
              nbsx2(rb->base)));
+      VERIF_REACH("x.parse.beyond_eof");
 
       decoder_free(&rb->ds);
       free(rb);
@@ -469,6 +474,7 @@ do_parse(void)
     /* Release unord blocks. */
     while (!empty(unord_q)) {
       struct unord_blk *ublk = dequeue(unord_q);
+      VERIF_REACH("x.parse.eof_unord");
 
       if (ublk->complete)
         free(ublk);
@@ -499,6 +505,7 @@ do_parse(void)
 
     Trace(("Parser discovered a mis-recognized bit pattern at {%u}",
            nbsx2(ublk->base)));
+    VERIF_REACH("x.parse.misrecognized");
     if (ublk->complete) {
       free(ublk);
     }
@@ -513,6 +520,8 @@ do_parse(void)
 
     Trace(("Parser took advantage of pattern found by scanner at {%u}",
            nbsx2(ublk->base)));
+    VERIF_REACH(ublk->complete ? "x.parse.scanned_complete" :
+                "x.parse.scanned_pending");
     advance(ublk->end_pos);
 
     if (ublk->complete) {
@@ -537,6 +546,7 @@ do_parse(void)
     rb->base = parser_bs.pos;
     enqueue(retr_q, rb);
     Trace(("Parser found a unique block at {%u}", nbsx2(rb->base)));
+    VERIF_REACH("x.parse.unique");
   }
 
   check_invariants();
@@ -565,6 +575,7 @@ do_retrieve(void)
   rb->curr_pos = detach(true_bitstream);
 
   if (parsing_done) {
+    VERIF_REACH("x.retrieve.after_eof");
     decoder_free(&rb->ds);
     free(rb);
     work_units++;
@@ -578,6 +589,7 @@ do_retrieve(void)
        legitimate. Continuing would be pointless, so release resources and
        abort this retrieve job. */
     Trace(("Retriever found himself redundand"));
+    VERIF_REACH("x.retrieve.redundant");
     work_units++;
     decoder_free(&rb->ds);
     free(rb);
@@ -596,6 +608,7 @@ do_retrieve(void)
 
   if (rv == MORE) {
     Trace(("Retriever blocked waiting for input"));
+    VERIF_REACH("x.retrieve.more");
     enqueue(retr_q, rb);
     check_invariants();
     return;
@@ -603,6 +616,7 @@ do_retrieve(void)
 
   if (rb->unord_link != NULL && !rb->unord_link->complete) {
     /* Parser doesn't know about us yet, so we must be ahead of master. */
+    VERIF_REACH("x.retrieve.ahead_of_parser");
     rb->unord_link->complete = true;
     rb->unord_link->end_pos = rb->curr_pos;
   }
@@ -656,6 +670,10 @@ do_emit(void)
   struct out_blk *oblk;
   int rv;
 
+#ifdef KJN_LBZIP2_VERIF
+  if (out_slots <= EMIT_THRESH)
+    VERIF_REACH("x.emit.reserved");
+#endif
   out_slots--;
   eb = dequeue(emit_q);
   check_invariants();
@@ -672,6 +690,7 @@ do_emit(void)
   oblk->base = eb->base;
 
   if (rv == MORE) {
+    VERIF_REACH("x.emit.more");
     oblk->end_offset = 0;
     eb->base.minor++;
     sched_lock();
@@ -709,6 +728,7 @@ do_reorder(void)
 
   if (empty(order_q) || pos_lt(peek(reord_q)->base, dq_get(order_q, 0).base)) {
     Trace(("Rejected bogus block at {%u}", nbsx2(peek(reord_q)->base)));
+    VERIF_REACH("x.reorder.bogus");
     free(dequeue(reord_q));
     out_slots++;
     check_invariants();
@@ -756,6 +776,10 @@ do_scan(void)
   struct bitstream true_bitstream;
 
   assert(!parsing_done);
+#ifdef KJN_LBZIP2_VERIF
+  if (work_units <= SCAN_THRESH)
+    VERIF_REACH("x.scan.reserved");
+#endif
   work_units--;
   bs = dequeue(scan_q);
 
@@ -771,6 +795,7 @@ do_scan(void)
   *bs = detach(true_bitstream);
 
   if (scan_result != OK || parsing_done) {
+    VERIF_REACH(scan_result != OK ? "x.scan.nothing" : "x.scan.after_eof");
     work_units++;
     free(bs);
     check_invariants();
@@ -780,6 +805,7 @@ do_scan(void)
   if (pos_le(bs->pos, parser_bs.pos)) {
     Trace(("Scanner found a known pattern at {%lu}",
            32ul + 32ul * bs->offset - bs->live));
+    VERIF_REACH("x.scan.known");
     work_units++;
   }
   else {
@@ -788,6 +814,7 @@ do_scan(void)
 
     Trace(("Scanner found a unique match at {%lu}",
            32ul + 32ul * bs->offset - bs->live));
+    VERIF_REACH("x.scan.unique");
 
     ub = XMALLOC(struct unord_blk);
     ub->base = bs->pos;
@@ -846,6 +873,7 @@ on_input_avail(void *buffer, size_t size)
 
   sched_lock();
   if (parsing_done) {
+    VERIF_REACH("x.input.after_eof");
     sched_unlock();
     free(iblk);
     free(scan_task);
@@ -934,3 +962,30 @@ const struct process expansion = {
   on_input_avail,
   on_write_complete,
 };
+
+
+#ifdef KJN_LBZIP2_VERIF
+/* Read-only probe of the decompression scheduler (see verif.h). */
+unsigned
+verif_probe_expand(struct verif_q *q, unsigned max, long *st)
+{
+  unsigned n = 0;
+
+#define Q(x) if (n < max) { q[n].name = #x; q[n].root = x.root;       \
+    q[n].size = x.size; q[n].elem = sizeof(*x.root); n++; }
+  Q(input_q);
+  Q(scan_q);
+  Q(retr_q);
+  Q(emit_q);
+  Q(unord_q);
+  Q(order_q);
+  Q(reord_q);
+#undef Q
+  st[0] = parse_token;
+  st[1] = parsing_done;
+  st[2] = (long)head_offs;
+  st[3] = (long)tail_offs;
+  st[4] = (long)eof_missing;
+  return n;
+}
+#endif
